@@ -113,6 +113,13 @@ fn rust_expr(t: &Ty, v: &Val) -> String {
     }
 }
 
+fn transient_attr(f: &FieldDescr) -> String {
+    match &f.transient {
+        Some(d) => format!("#[transient({})] ", rust_expr(&f.ty, d)),
+        None => String::new(),
+    }
+}
+
 fn evolution_attr(rd: &RecordDescr) -> String {
     if rd.steps.is_empty() {
         return String::new();
@@ -189,14 +196,14 @@ fn emit_enum(d: &Decl, ed: &EnumDescr, out: &mut String) {
                 out,
                 "    {}({}),",
                 v.name,
-                v.record.fields.iter().map(|f| field_ty(f, 1)).collect::<Vec<_>>().join(", ")
+                v.record.fields.iter().map(|f| format!("{}{}", transient_attr(f), field_ty(f, 1))).collect::<Vec<_>>().join(", ")
             )
             .unwrap(),
             _ => writeln!(
                 out,
                 "    {} {{ {} }},",
                 v.name,
-                v.record.fields.iter().map(|f| format!("{}: {}", f.name, field_ty(f, 0))).collect::<Vec<_>>().join(", ")
+                v.record.fields.iter().map(|f| format!("{}{}: {}", transient_attr(f), f.name, field_ty(f, 0))).collect::<Vec<_>>().join(", ")
             )
             .unwrap(),
         }
